@@ -122,6 +122,15 @@ def overlapMsg (what : String) (fm : FM) (ib : Box) (pofm : FM) (ob : Box) : Opt
     some s!"{what} rows {ib.y0}..{ib.y1} cols {ib.x0}..{ib.x1} ch {ib.c0}..{ib.c1} overlaps OFM block rows {ob.y0}..{ob.y1} cols {ob.x0}..{ob.x1} ch {ob.c0}..{ob.c1}"
   else none
 
+/-- SHRAM between consecutive kernel operations: the activation stage of `p`'s last jobs still reads its lookup
+    table while, with `BLOCKDEP > 0`, the first jobs of `c` already fill their IFM buffers and accumulators.
+    If those lie over the table slot, the table is corrupted under `p` (write-after-read on SHRAM bytes). -/
+def checkPairShram (s : Shram) (p c : BlockOp) (pi ci : Nat) : List String :=
+  if c.blockdep = 0 then [] else
+  if conflict (lutRead s p) (shramWrites s c) then
+    [s!"op {ci} BLOCKDEP {c.blockdep}: its SHRAM buffers ({describe (lutRead s p) (shramWrites s c)}) lie over the lookup table op {pi} is still reading"]
+  else []
+
 /-- read-after-write conflicts the programmed BLOCKDEP of `c` allows against the previous kernel operation `p` -/
 def checkPair (p c : BlockOp) (pi ci : Nat) : List String :=
   (List.range c.blockdep).flatMap fun f =>
@@ -162,7 +171,7 @@ def skipCount (ops : List StreamOp) : Nat :=
   go ks
 
 /-- every kernel operation against the kernel operation before it (DMAs in between do not matter) -/
-def checkStream (_isU65 : Bool) (ops : List StreamOp) : List String :=
+def checkStream (s : Shram) (ops : List StreamOp) : List String :=
   let rec go (l : List (StreamOp × Nat)) (prev : Option (BlockOp × Nat)) (acc : List String) : List String :=
     match l with
     | [] => acc
@@ -172,7 +181,7 @@ def checkStream (_isU65 : Bool) (ops : List StreamOp) : List String :=
       | .block c =>
         match prev with
         | none => go rest (some (c, i)) acc
-        | some (p, pi) => go rest (some (c, i)) (acc ++ checkPair p c pi i)
+        | some (p, pi) => go rest (some (c, i)) (acc ++ checkPair p c pi i ++ checkPairShram s p c pi i)
   go ops.zipIdx none []
 
 end VelaVerif.BlockJobs
